@@ -79,9 +79,9 @@ CLAIMED = {
          "reclaimer_no_lost_wakeup, waker_not_stuck / waker_measure (<= 14 own steps); necessity witnesses Neg/C13 (no mb before "
          "wake_up_defer, scan before dec, tail published early). Tie of the concurrent part: the real urcu.c + urcu-defer-impl.h (mb, "
          "memb) under the cooperative runtime incl. the real defer thread, ring wrap, the SIZE-2 flush, futex fault plans, "
-         "one-preemption sweeps of the dec->scan->wait and head-store->mb->futex-load windows. Partial: liveness under fairness "
-         "(C13_conc_live) is stated, not proved; the two L2 models are composed through their shared steps, not by a mechanised "
-         "refinement.",
+         "one-preemption sweeps of the dec->scan->wait and head-store->mb->futex-load windows. Liveness: C13_conc_full_proved "
+         "(defer_thread_eventually_woken under weak fairness of the owners; Props/LiveC13.lean). Partial: the two L2 models are composed "
+         "through their shared steps, not by a mechanised refinement.",
     note="Trusted: Lean kernel; GpSpec as the meaning of synchronize_rcu; each API step atomic under rcu_defer_mutex (enqueue interleaves "
          "between snapshot/gp/run); harness shims (TLS array, mutex/thread/malloc hooks, SIGSEGV-simulated calls for non-callable "
          "function words); malloc succeeds; 64-bit long.",
@@ -98,7 +98,10 @@ CLAIMED = {
          "(qsbr_no_lost_wakeup, qsbr_armed_visible); bp has no futex (poll loop) and is covered by the tie and the budget detector. "
          "lock_order_deadlock_free (Gp/Locks.lean: the wait-for graph of rcu_gp_lock / rcu_registry_lock has no cycle, chains <= 2, for any "
          "number of synchronize_rcu callers and (un)registering threads; discipline tied by the LOCK/UNLOCK events of the trace). "
-         "Partial: 'eventually' needs a fair scheduler; bp's init_lock is outside the lock model.",
+         "Liveness with fairness as an explicit hypothesis on the infinite run (Machine/Fair.lean: weak fairness, leads-to by measure; "
+         "Props/LiveC02.lean): leader_eventually_woken, readers_eventually_done, gp_eventually_completes, waiter_eventually_returns, "
+         "qsbr_leader_eventually_woken. Partial: bp's init_lock is outside the lock model; the liveness theorems are about the "
+         "handshake models, their composition with the scan loop is by interface.",
     note="Trusted: Lean kernel; x86-TSO + futex + sys_membarrier contracts; fair scheduler for 'eventually'; the abstract handshake "
          "models are related to the code by the event-level replay on explored schedules only.",
     technique="Lean 4 inductive-invariant proofs (TSO futex handshake, wait-node hand-over) + event-level trace refinement with fault injection and systematic preemption sweep",
@@ -244,7 +247,10 @@ CLAIMED = {
          "three generations, helpers caught mid-batch, online qsbr forker, bp with other readers inside sections; the child creates "
          "new reader threads and uses read-side sections, synchronize_rcu, call_rcu, rcu_barrier, a resizable hash table; every "
          "process trace replayed on drv_fork; oracles: per-process invocation counts, registry, crd list, no join, termination. "
-         "Partial: liveness of invocation (C16_full) needs the helper futex handshake (C03) + fairness; lfht hooks by oracles only.",
+         "mask_restored (bp: after after_fork_parent / _child the caller's signal mask equals its mask at before_fork entry, also with "
+         "concurrent forkers); liveness: after_fork_child_eventually_returns (Props/LiveC16.lean). Partial: liveness of invocation in "
+         "each process is C03's queued_callback_eventually_invoked applied per process (C16_full as first written lacks a 'sections "
+         "end' hypothesis); lfht hooks by oracles only.",
     note="Trusted: Lean kernel; fork() clones only the calling thread with a copy of memory; documented preconditions as guards (handlers "
          "called outside read-side sections; other application threads idle and unregistered at the fork for non-bp flavors); callbacks "
          "terminate and do not call rcu_barrier or helper management; L1 ⊑ L2 on explored schedules only. Observations outside the "
@@ -263,7 +269,11 @@ CLAIMED = {
          "/ default helpers incl. RT, call_rcu_data_free with pending callbacks, create_all / free_all / set_cpu, futex fault plans "
          "incl. ENOSYS, urcu_call_rcu_exit; every event replayed on Driver/CallRcu.lean; one-preemption sweeps of the helper's "
          "dec / empty-check / sleep window and the enqueuer's enqueue / wake window; oracles once / head / gp / uaf + deadlock / "
-         "budget. Partial: 'eventually invoked' (C03_full) needs a fair scheduler and is not proved; qsbr / bp flavors not run.",
+         "budget. Liveness (Props/LiveC03.lean, fairness explicit): queued_callback_eventually_invoked (a callback in a helper's queue is "
+         "invoked exactly once eventually if helper and wakers are weakly fair, sections end, callbacks terminate, no stop / pause), "
+         "helper_eventually_wakes, tso_helper_eventually_wakes; C03_full as first written (weak fairness only) is shown FALSE "
+         "(C03_full_false: starvation at call_rcu_mutex - a statement artefact). Partial: entry-to-enqueue under mutex contention and "
+         "the hand-over path are outside the liveness theorem; qsbr / bp flavors not run.",
     note="Trusted: Lean kernel; GpSpec (C01) as synchronize_rcu; wfcqueue FIFO / atomic enqueue (C10); x86-TSO + futex contract; caller "
          "obligations of the API as model guards; L1 transliteration ⊑ L2 on explored schedules only.",
     technique="Lean 4 inductive invariants (placement, timing, order, destruction protocol, sleep/wake handshake; one lemma per label) + event-level trace refinement of the real source under the cooperative runtime with fault injection and one-preemption sweeps",
@@ -277,8 +287,10 @@ CLAIMED = {
          "(refcount = caller + markers not yet put, freed exactly at 0, no access afterwards); barrier_futex_range, "
          "barrier_no_lost_wakeup, outstanding_marker, marker_not_stuck / marker_measure; barrier_in_cs_refused. Tie: the C03 "
          "scenarios with rcu_barrier callers (concurrent, inside a section, with no helper), oracle 'barrier' + completion poison "
-         "check, sweep of the helper inside the caller's dec / count-test / FUTEX_WAIT window. Partial: 'always returns' as a temporal "
-         "statement (C04_full) is not proved; qsbr online/offline caller not run.",
+         "check, sweep of the helper inside the caller's dec / count-test / FUTEX_WAIT window. Liveness (Props/LiveC04.lean): "
+         "barrier_eventually_returns (once the markers are queued, rcu_barrier() returns on every run weakly fair for the caller and the "
+         "markers on which every marker is eventually invoked = C03's liveness). Partial: the lock / init / enqueue prefix under mutex "
+         "contention needs strong fairness (C04_full as first written does not hold under weak fairness); qsbr online/offline caller not run.",
     note="Trusted: as C03; the barrier layer reaches C03 only through the hooks (base_reach proved).",
     technique="Lean 4 invariants (bookkeeping / refcount / handshake per label; list-decomposition proof of the marker-FIFO invariant) + the C03 trace refinement",
     design_ref="§4 C04", engine="callrcu"),
@@ -328,7 +340,7 @@ CLAIMED = {
     text="Lean 4 theorems poll_sound / poll_monotone / poll_no_stuck / poll_progress (inductive invariant over all operation "
          "interleavings, any number of readers and handles) on an executable model of urcu-poll-impl.h; the model is tied to "
          "the current source by replaying generated operation sequences on the real file and on the model (every returned "
-         "handle, boolean and re-queue decision compared) plus an independent implementation oracle; and the same real file under the cooperative runtime with several poller threads, readers and an abstract helper, preempted at every mutex acquisition/release (operations ordered by the ticket taken when the mutex is acquired), which exposes accesses moved out of the critical section. Floor = target (DESIGN §4 C14).",
+         "handle, boolean and re-queue decision compared) plus an independent implementation oracle; and the same real file under the cooperative runtime with several poller threads, readers and an abstract helper, preempted at every mutex acquisition/release (operations ordered by the ticket taken when the mutex is acquired), which exposes accesses moved out of the critical section; liveness with explicit hypotheses: poll_eventually_true, poll_eventually_true_of_gp (Props/LiveC14.lean). Floor = target (DESIGN §4 C14).",
     note="Trusted: Lean kernel (axioms propext/Classical.choice/Quot.sound only); call_rcu and the grace period are the abstract "
          "C03/C01 specifications; each API body is atomic under poll_worker_gp_state.lock (lock discipline is observed by the "
          "harness, not proved); counters do not wrap within 2^63 grace periods; liveness needs C03's helper liveness + fairness.",
